@@ -1,8 +1,10 @@
 (* TransferBytes: the data path of STOR / APPE / RETR as written (C01).
 
-     server.py  stor_worker:   file_mode = "r+b" if restart_offset else mode
-                               async with file_out, stream:
-                                   if restart_offset: await file_out.seek(restart_offset)
+     server.py  dispatcher:    for a known verb: if cmd in ("retr","stor","appe"): transfer_offset = restart_offset
+                                                 restart_offset = 0
+                stor_worker:   file_mode = "r+b" if transfer_offset else mode
+                               async with stream, file_out:
+                                   if transfer_offset: await file_out.seek(transfer_offset)
                                    async for data in stream.iter_by_block(block_size):
                                        await file_out.write(data)
                                response("226")
@@ -137,7 +139,9 @@ Definition file_trace (block : nat) (oracle : list nat) (h : handle) : list byte
 
 (* ------------------------------------------------------------------------------------------ *)
 (* open-mode selection, parametric in the table extracted from stor_worker / retr_worker
-   (Gen.Dispatch w_open_modes: "restart:<m>" / "norestart:<m>" / "<m>", "$mode" = the verb's mode) *)
+   (Gen.Dispatch w_open_modes: "handed:<m>" (the worker's handed offset, connection.transfer_offset, is
+   non-zero) / "nohanded:<m>" / "<m>", "$mode" = the verb's mode; the tags "restart:" / "norestart:" of
+   the pre-F14 source, where the worker read connection.restart_offset itself, are NOT interpreted) *)
 
 Definition mode_of_name (verb_mode : mode) (s : string) : option mode :=
   if String.eqb s "wb" then Some WB
@@ -155,14 +159,14 @@ Fixpoint select_mode (table : list string) (verb_mode : mode) (restart : bool) :
   match table with
   | [] => None
   | e :: r =>
-      match strip_prefix "restart:" e, strip_prefix "norestart:" e with
+      match strip_prefix "handed:" e, strip_prefix "nohanded:" e with
       | Some m, _ => if restart then mode_of_name verb_mode m else select_mode r verb_mode restart
       | None, Some m => if restart then select_mode r verb_mode restart else mode_of_name verb_mode m
       | None, None => mode_of_name verb_mode e
       end
   end.
 
-Definition expected_stor_modes : list string := ["restart:r+b"; "norestart:$mode"]%string.
+Definition expected_stor_modes : list string := ["handed:r+b"; "nohanded:$mode"]%string.
 Definition expected_retr_modes : list string := ["rb"]%string.
 
 (* mode argument each verb hands to stor(): Gen.Xfer (stor's default, appe's delegation) *)
@@ -182,6 +186,33 @@ Definition stor_worker (table : list string) (verb_mode : mode) (off : nat) (old
       let h0 := h_open m old in
       let h1 := if restart then h_seek off h0 else h0 in
       Some (h_content (stor_loop h1 reads))
+  end.
+
+(* the same when the file may be MISSING (old = None).  "r+b" (and "rb") on a missing path raise
+   FileNotFoundError on every backend (PathIO, AsyncPathIO, MemoryPathIO): the worker ends with
+   451, nothing is created, no 226.  Outer option: the mode table is interpretable; inner: Some c =
+   stored, 226 sent, content c; None = 451, the file is still missing. *)
+Definition h_open_opt (m : mode) (old : option bytes) : option handle :=
+  match old with
+  | Some c => Some (h_open m c)
+  | None => match m with
+            | WB | AB => Some (h_open m [])
+            | RPB | RB => None
+            end
+  end.
+
+Definition stor_worker_on (table : list string) (verb_mode : mode) (off : nat) (old : option bytes)
+           (reads : list bytes) : option (option bytes) :=
+  let restart := negb (off =? 0) in
+  match select_mode table verb_mode restart with
+  | None => None
+  | Some m =>
+      match h_open_opt m old with
+      | None => Some None
+      | Some h0 =>
+          let h1 := if restart then h_seek off h0 else h0 in
+          Some (Some (h_content (stor_loop h1 reads)))
+      end
   end.
 
 (* retr_worker: bytes queued on the data connection before it is closed *)
@@ -292,25 +323,56 @@ Definition stor_script (reply_after_ctx : bool) (ctx : list string) (m : mode) (
   ++ (if reply_after_ctx then exit_steps ctx ++ [SReply] else SReply :: exit_steps ctx).
 
 (* ------------------------------------------------------------------------------------------ *)
-(* the restart offset across commands (dispatcher: for a verb of the table,
-   `if cmd not in EXEMPT: restart_offset = 0`, executed when the command is dispatched, before its
-   handler runs; a verb missing from the table only gets a 502; rest(): offset := int(arg)) *)
+(* the restart offset across commands.  Dispatcher, for a verb of the table, when the command is
+   dispatched and BEFORE its handler runs:
+       if cmd in HANDED: connection.transfer_offset = connection.restart_offset
+       if cmd not in EXEMPT: connection.restart_offset = 0        (today: EXEMPT is empty)
+   a verb missing from the table only gets a 502; rest(): restart_offset := int(arg), by the handler,
+   i.e. after the dispatcher's own clearing.  The transfer workers read transfer_offset.
+   (HANDED = [] and EXEMPT = [retr; stor; appe] with workers reading restart_offset was the pre-F14
+   source; the model keeps both lists as parameters so that shape stays expressible.) *)
 Inductive cmdk : Type :=
 | CRest (n : nat)
 | CVerb (v : string).
 
-Definition disp_step (table : list (string * string)) (exempt : list string) (off : nat) (c : cmdk) : nat :=
-  match c with
-  | CRest n => match assoc_s "rest" table with Some _ => n | None => off end
-  | CVerb v =>
-      match assoc_s v table with
-      | None => off                 (* verb not in the table: "502 not implemented", nothing else happens *)
-      | Some _ => if mem_s v exempt then off else O
-      end
+Record ostate : Type := mkO { o_restart : nat; o_transfer : nat }.
+
+Definition disp_verb (table : list (string * string)) (handed exempt : list string) (s : ostate) (v : string) : ostate :=
+  match assoc_s v table with
+  | None => s                 (* verb not in the table: "502 not implemented", nothing else happens *)
+  | Some _ =>
+      mkO (if mem_s v exempt then o_restart s else O)
+          (if mem_s v handed then o_restart s else o_transfer s)
   end.
 
-Definition offset_after (table : list (string * string)) (exempt : list string) (hist : list cmdk) (off : nat) : nat :=
-  fold_left (disp_step table exempt) hist off.
+Definition disp_step (table : list (string * string)) (handed exempt : list string) (s : ostate) (c : cmdk) : ostate :=
+  match c with
+  | CRest n =>
+      match assoc_s "rest" table with
+      | Some _ => mkO n (o_transfer (disp_verb table handed exempt s "rest"))
+      | None => s
+      end
+  | CVerb v => disp_verb table handed exempt s v
+  end.
+
+Definition offset_after (table : list (string * string)) (handed exempt : list string) (hist : list cmdk) (s : ostate) : ostate :=
+  fold_left (disp_step table handed exempt) hist s.
+
+(* the offset each handed command's worker reads, in order of the commands *)
+Fixpoint transfer_trace (table : list (string * string)) (handed exempt : list string) (hist : list cmdk) (s : ostate) : list nat :=
+  match hist with
+  | [] => []
+  | c :: r =>
+      let s' := disp_step table handed exempt s c in
+      match c with
+      | CVerb v => match assoc_s v table with
+                   | Some _ => if mem_s v handed then o_transfer s' :: transfer_trace table handed exempt r s'
+                               else transfer_trace table handed exempt r s'
+                   | None => transfer_trace table handed exempt r s'
+                   end
+      | CRest _ => transfer_trace table handed exempt r s'
+      end
+  end.
 
 (* what Client.get_stream sends before the data flows: TYPE I, the passive command, REST o when
    o is non-zero, the transfer verb *)
@@ -347,7 +409,8 @@ Definition check_dispatch_facts (ws : list worker) (hs : list handler) (d : disp
      | Some h => list_string_eqb (h_spawns h) ["retr_worker"%string]
      | None => false
      end
-  && list_string_eqb (d_reset_exempt d) ["retr"; "stor"; "appe"]%string
+  && list_string_eqb (d_reset_exempt d) []
+  && list_string_eqb (d_offset_handed d) ["retr"; "stor"; "appe"]%string
   && forallb (fun v => match assoc_s v (d_table d) with Some t => String.eqb t v | None => false end)
              ["stor"; "appe"; "retr"; "rest"; "type"; "pasv"; "epsv"]%string
   && d_table_literal d.
@@ -365,19 +428,21 @@ Definition check_xfer_modes (f : xfer_facts) : bool :=
 
 Definition check_xfer_shapes (f : xfer_facts) : bool :=
   list_string_eqb (xf_stor_body f)
-       ["if conn.restart_offset: await FILE.seek(conn.restart_offset)";
+       ["if conn.transfer_offset: await FILE.seek(conn.transfer_offset)";
         "async for ITEM in STREAM.iter_by_block(conn.block_size): await FILE.write(ITEM)"]
   && list_string_eqb (xf_retr_body f)
-       ["if conn.restart_offset: await FILE.seek(conn.restart_offset)";
+       ["if conn.transfer_offset: await FILE.seek(conn.transfer_offset)";
         "async for ITEM in FILE.iter_by_block(conn.block_size): await STREAM.write(ITEM)"]
   && String.eqb (xf_stor_open f) "conn.path_io.open(real_path, mode=file_mode)"
   && String.eqb (xf_retr_open f) "conn.path_io.open(real_path, mode='rb')"
   && list_string_eqb (xf_rest_body f)
-       ["rest.isdigit() => conn.restart_offset = int(rest)";
-        "not rest.isdigit() => conn.restart_offset = 0"]
+       ["rest.isascii() and rest.isdigit() => conn.restart_offset = int(rest)";
+        "not (rest.isascii() and rest.isdigit()) => conn.restart_offset = 0"]
   && list_string_eqb (xf_reset_stmt f)
        ["pending.add(asyncio.create_task(f(conn, rest)))";
-        "if cmd not in ('retr', 'stor', 'appe'): conn.restart_offset = 0"]
+        "if cmd in ('retr', 'stor', 'appe'): conn.transfer_offset = conn.restart_offset";
+        "conn.restart_offset = 0"]
+  && list_string_eqb (xf_offset_init f) ["restart_offset=0"; "transfer_offset=0"]
   && list_string_eqb (xf_backend_wiring f)
        ["self.path_io_factory = pathio.PathIONursery(path_io_factory)";
         "connection.path_io = self.path_io_factory(**kw)"]
@@ -484,14 +549,26 @@ Definition run_bytes (fn : Z) (a : sx) : sx :=
       | Some (vis, op) => L [sx_of_bytes vis; sx_of_bool op; sx_of_bytes (v_visible v)]
       | None => sx_err 2
       end
-  | 9%Z => (* offset_after exempt=[retr;stor;appe] hist *)
-      sx_of_nat (offset_after (map (fun v => (v, v)) ["type"; "pasv"; "epsv"; "stor"; "appe"; "retr"; "rest"]%string)
-                              ["retr"; "stor"; "appe"]%string (map cmdk_of_sx (list_of_sx (nth_sx 0 a))) O)
+  | 9%Z => (* transfer_trace (today's table / handed / exempt) hist: the offset each transfer command is served from *)
+      L (map sx_of_nat
+          (transfer_trace (map (fun v => (v, v)) ["type"; "pasv"; "epsv"; "stor"; "appe"; "retr"; "rest"]%string)
+                          ["retr"; "stor"; "appe"]%string [] (map cmdk_of_sx (list_of_sx (nth_sx 0 a))) (mkO O O)))
   | 10%Z => (* upload(): local cblock coracle -> wire ; download(): reads -> file *)
       sx_of_bytes (client_upload_wire (bytes_of_sx (nth_sx 0 a)) (nat_of_sx (nth_sx 1 a)) (nats_of_sx (nth_sx 2 a)))
   | 11%Z =>
       sx_of_bytes (client_download_file (byteses_of_sx (nth_sx 0 a)))
   | 12%Z => (* cut_by sizes s *)
       sx_of_byteses (cut_by (nats_of_sx (nth_sx 0 a)) (bytes_of_sx (nth_sx 1 a)))
+  | 15%Z => (* stor_worker_on: mode off old-or-missing reads ; (0 (0 bytes)) stored, (0 (1)) = 451 and still missing *)
+      let old := match list_of_sx (nth_sx 2 a) with
+                 | [] => None
+                 | x :: _ => Some (bytes_of_sx x)
+                 end in
+      match stor_worker_on expected_stor_modes (mode_of_sx (nth_sx 0 a)) (nat_of_sx (nth_sx 1 a)) old
+                           (byteses_of_sx (nth_sx 3 a)) with
+      | None => sx_err 1
+      | Some None => sx_ok (L [I 1%Z])
+      | Some (Some c) => sx_ok (L [I 0%Z; sx_of_bytes c])
+      end
   | _ => sx_err 99
   end.
